@@ -53,7 +53,8 @@ def dec(s: str) -> str:
 
 
 def enc_coll(c) -> str:
-    return 'NONE' if c is None else enc(c)
+    # a collation argument that is not a string (here: an integer) is refused like the empty sequence: XPTY0004
+    return enc(c) if isinstance(c, str) else 'NONE'
 
 
 # ----------------------------------------------------------------- the C library stand-in
@@ -228,7 +229,9 @@ class Ev:
             return self.inner + ([] if self.raises else ['C'])
         if k == 'for-index-of':
             return ['C'] + self.inner
-        return list(self.inner)          # distinct-values, for-distinct-values, max, min: no comparison
+        if k == 'distinct-values':       # items 'true' x len(inner), 'x': each but the first is compared once
+            return self.inner + ([] if self.raises else ['C'] * len(self.inner))
+        return list(self.inner)          # for-distinct-values (one item), max / min (raising form): no comparison
 
     def tokens(self):
         body = self.body()
@@ -272,9 +275,10 @@ OTHER_EXPRS = [
     "round(xs:decimal('123456789012345678901234567890.5'))",
 ]
 
-# number of strcoll/strxfrm calls of the flat templates (operand `$s` = ('b','a','b'), token 'zz')
+# number of strcoll/strxfrm calls of the flat templates (operand `$s` = ('b','a','b'), token 'zz');
+# distinct-values: 'a' vs 'b', second 'b' vs 'b'; max/min: n-1 comparisons through cmp_to_key(manager.strcoll)
 FLAT_CMPS = {'compare': 1, 'contains': 2, 'starts-with': 2, 'ends-with': 2, 'substring-before': 2,
-             'substring-after': 2, 'index-of': 3, 'distinct-values': 0, 'max': 0, 'min': 0, 'deep-equal': 3,
+             'substring-after': 2, 'index-of': 3, 'distinct-values': 2, 'max': 2, 'min': 2, 'deep-equal': 3,
              'contains-token': 3, 'collation-key': 1, 'for-index-of': 1, 'for-distinct-values': 0}
 
 FLAT_KINDS = ['compare', 'contains', 'starts-with', 'ends-with', 'substring-before',
@@ -300,6 +304,9 @@ class ExprBuilder:
     def cref(self, coll):
         if coll is None:
             return '()'
+        if not isinstance(coll, str):
+            self.vars['cint'] = coll
+            return '$cint'
         if coll not in self.collvar:
             name = f'c{len(self.collvar)}'
             self.collvar[coll] = name
@@ -317,7 +324,9 @@ class ExprBuilder:
     def expr_with(self, ev: Ev, c: str) -> str:
         k = ev.kind
         if ev.inner or ev.raises:
-            items = [f'string(count({self.expr(e)}))' for e in ev.inner] + ["'x'"]
+            # every inner evaluation contributes the same string, so that the number of comparisons of the
+            # outer function does not depend on the inner results
+            items = [f'string(count({self.expr(e)}) ge 0)' for e in ev.inner] + ["'x'"]
             if ev.raises:
                 mark, code = RAISE_MARK[k]
                 items.append(mark)
@@ -413,6 +422,7 @@ def eval_iter_held(ev: Ev, eval_inner):
     from elementpath import Selector
     from elementpath.xpath31 import XPath31Parser
     sel = Selector('index-of($s, $a, $c)' if ev.coll is not None else 'index-of($s, $a, ())', parser=XPath31Parser)
+    # (a non-string collation travels in $c like a string one)
     variables = {'s': ['a', 'x', 'a'], 'a': 'a'}
     if ev.coll is not None:
         variables['c'] = ev.coll
@@ -513,7 +523,7 @@ def norm_name(lc, world: World) -> str:
 def norm_table(colls, world: World) -> str:
     out = {}
     for c in colls:
-        if c is None:
+        if not isinstance(c, str):
             continue
         m = impl_manager(c)
         if isinstance(m, str) or m[0] is None:
@@ -585,8 +595,10 @@ def gen_coll(rng, world: World):
     r = rng.random()
     if r < 0.10:
         return rng.choice([CODEPOINT, HTML_ASCII, CASEBLIND])
-    if r < 0.14:
+    if r < 0.12:
         return None
+    if r < 0.14:
+        return 42
     if r < 0.62:
         parts = []
         if rng.random() < 0.85:
@@ -643,7 +655,7 @@ def gen_ev(rng, world: World, depth=0, allow_nest=True) -> Ev:
         inner = []
         kind = rng.choice([k for k in RAISE_MARK]) if raises else rng.choice(FLAT_KINDS)
     ev = Ev(coll, inner, raises, kind)
-    if coll is not None and rng.random() < 0.12:
+    if isinstance(coll, str) and rng.random() < 0.12:
         ev.coll, ev.dflt = world.default_collation(), True
     return ev
 
@@ -657,7 +669,7 @@ def walk_evs(ev: Ev):
 def fix_markers(ev: Ev):
     """keep outcomes unambiguous: no XPTY0004 body marker in a tree that has an empty-sequence
     collation; collation-key only at top level"""
-    has_none = any(c is None for c in ev.colls())
+    has_none = any(not isinstance(c, str) for c in ev.colls())
 
     def walk(e, top):
         if e.raises and has_none and e.kind == 'contains-token':
@@ -681,7 +693,7 @@ def gen_history(rng, quick=True):
         d = [e for e in walk_evs(ev) if e.dflt]
         if d and rng.random() < 0.5:        # XPath31Parser(default_collation=<any collation>)
             dc = gen_coll(rng, world)
-            if dc is not None:
+            if isinstance(dc, str):
                 for e in d:
                     e.coll = dc
                 ev.dc_from_locale = False
@@ -730,7 +742,7 @@ def compare_histories(run: Run, cases, tag_known=True):
     st = run.stats
     envd, decd = globals_digest()
     lines = []
-    parse_colls = sorted({c for _, evs in cases for e in evs for c in e.colls() if c is not None})
+    parse_colls = sorted({c for _, evs in cases for e in evs for c in e.colls() if isinstance(c, str)})
     for c in parse_colls:
         lines.append(f'PARSE c={enc(c)}')
     lines.append('PARSE c=NONE')
